@@ -292,12 +292,12 @@ class Pool(object):
         self.idle = set()
         self.busy = set()
         self.closed = False
+        self.count_lock = threading.Lock()
         for _ in range(config.THREADPOOL_SIZE_MIN):
             worker = Worker(self)
             self.idle.add(worker)
             worker.start()
         log.debug("worker pool created with initial size %d", self.num_workers())
-        self.count_lock = threading.Lock()
 
     def __enter__(self):
         return self
@@ -308,14 +308,16 @@ class Pool(object):
     def close(self):
         if not self.closed:
             log.debug("closing down")
-            for w in list(self.busy):
-                w.process(None)
-            for w in list(self.idle):
-                w.process(None)
-            self.closed = True
+            with self.count_lock:
+                for w in list(self.busy):
+                    w.process(None)
+                for w in list(self.idle):
+                    w.process(None)
+                self.closed = True
             time.sleep(0.1)
-            idle, self.idle = self.idle, set()
-            busy, self.busy = self.busy, set()
+            with self.count_lock:
+                idle, self.idle = self.idle, set()
+                busy, self.busy = self.busy, set()
             # check if the threads that are joined are not the current thread.
             current_thread = threading.current_thread()
             while idle:
@@ -335,27 +337,29 @@ class Pool(object):
         return len(self.busy) + len(self.idle)
 
     def process(self, job):
-        if self.closed:
-            raise PoolError("job queue is closed")
-        if self.idle:
-            worker = self.idle.pop()
-        elif self.num_workers() < config.THREADPOOL_SIZE:
-            worker = Worker(self)
-            worker.start()
-        else:
-            raise NoFreeWorkersError("no free workers available, increase thread pool size")
-        self.busy.add(worker)
-        worker.process(job)
-        log.debug("worker counts: %d busy, %d idle", len(self.busy), len(self.idle))
+        with self.count_lock:
+            if self.closed:
+                raise PoolError("job queue is closed")
+            if self.idle:
+                worker = self.idle.pop()
+            elif self.num_workers() < config.THREADPOOL_SIZE:
+                worker = Worker(self)
+                worker.start()
+            else:
+                raise NoFreeWorkersError("no free workers available, increase thread pool size")
+            self.busy.add(worker)
+            worker.process(job)
+            log.debug("worker counts: %d busy, %d idle", len(self.busy), len(self.idle))
 
     def notify_done(self, worker):
-        if worker in self.busy:
-            self.busy.remove(worker)
-        if self.closed:
-            worker.process(None)
-            return
-        if len(self.idle) >= config.THREADPOOL_SIZE_MIN:
-            worker.process(None)
-        else:
-            self.idle.add(worker)
-        log.debug("worker counts: %d busy, %d idle", len(self.busy), len(self.idle))
+        with self.count_lock:
+            if worker in self.busy:
+                self.busy.remove(worker)
+            if self.closed:
+                worker.process(None)
+                return
+            if len(self.idle) >= config.THREADPOOL_SIZE_MIN:
+                worker.process(None)
+            else:
+                self.idle.add(worker)
+            log.debug("worker counts: %d busy, %d idle", len(self.busy), len(self.idle))
